@@ -487,4 +487,103 @@ theorem execLoop_final_flush (rounds : List ERound) (s : St) (hf : FinalFlush s)
     | teardown => simp [LoopEnd.toRet]
     | raised => simp [LoopEnd.toRet]
 
+/-! ### hand-off protocol -/
+
+theorem recvAll_pairs (l : List Nat) : recvAll (l.flatMap pairOf) = some (l.map (fun j => (j, j))) := by
+  induction l with
+  | nil => rfl
+  | cons a l ih => simp [pairOf, recvAll] at ih ⊢; simp [ih]
+
+/-- invariant of the locked protocol: threads that do not hold the lock have not
+    started or are finished; the pipe holds the intact pairs of the earlier
+    acquisitions and a prefix of the current holder's pair -/
+def HInv (s : HS) : Prop :=
+  (∀ j, s.lock ≠ some j → s.pc j = 0 ∨ 4 ≤ s.pc j) ∧
+  (match s.lock with
+   | none => s.pipe = s.acq.flatMap pairOf
+   | some i => ∃ acq', s.acq = acq' ++ [i] ∧
+      ((s.pc i = 1 ∧ s.pipe = acq'.flatMap pairOf) ∨
+       (s.pc i = 2 ∧ s.pipe = acq'.flatMap pairOf ++ [.addr i]) ∨
+       (s.pc i = 3 ∧ s.pipe = acq'.flatMap pairOf ++ pairOf i)))
+
+theorem lockedProg_none (n : Nat) (h : 4 ≤ n) : lockedProg[n]? = none := by
+  simp [lockedProg]; omega
+
+theorem upd_same (f : Nat → Nat) (i v : Nat) : upd f i v i = v := by simp [upd]
+
+theorem upd_other (f : Nat → Nat) (i v j : Nat) (h : j ≠ i) : upd f i v j = f j := by simp [upd, h]
+
+theorem hstep_inv (s : HS) (i : Nat) (h : HInv s) : HInv (hstep lockedProg s i) := by
+  obtain ⟨h1, h2⟩ := h
+  cases hl : s.lock with
+  | none =>
+    rw [hl] at h2; simp only at h2
+    rcases h1 i (by rw [hl]; simp) with hp | hp
+    · have e : hstep lockedProg s i =
+          { s with lock := some i, pc := upd s.pc i (s.pc i + 1), acq := s.acq ++ [i] } := by
+        simp [hstep, lockedProg, hp, hl]
+      rw [e]
+      refine ⟨?_, ?_⟩
+      · intro j hj
+        have hji : j ≠ i := fun c => hj (by simp [c])
+        simp only [upd_other _ _ _ _ hji]
+        exact h1 j (by rw [hl]; simp)
+      · exact ⟨s.acq, rfl, Or.inl ⟨by simp [upd_same, hp], h2⟩⟩
+    · have e : hstep lockedProg s i = s := by simp [hstep, lockedProg_none _ hp]
+      rw [e]; exact ⟨h1, by rw [hl]; exact h2⟩
+  | some k =>
+    rw [hl] at h2; simp only at h2
+    obtain ⟨acq', ha, hc⟩ := h2
+    by_cases hik : i = k
+    · subst hik
+      rcases hc with ⟨hp, hq⟩ | ⟨hp, hq⟩ | ⟨hp, hq⟩
+      · have e : hstep lockedProg s i =
+            { s with pipe := s.pipe ++ [.addr i], pc := upd s.pc i (s.pc i + 1) } := by
+          simp [hstep, lockedProg, hp]
+        rw [e]
+        refine ⟨?_, ?_⟩
+        · intro j hj
+          have hji : j ≠ i := fun c => hj (by simp [hl, c])
+          simp only [upd_other _ _ _ _ hji]
+          exact h1 j (by rw [hl]; simpa using hji.symm)
+        · simp only [hl]
+          exact ⟨acq', ha, Or.inr (Or.inl ⟨by simp [upd_same, hp], by rw [hq]⟩)⟩
+      · have e : hstep lockedProg s i =
+            { s with pipe := s.pipe ++ [.fd i], pc := upd s.pc i (s.pc i + 1) } := by
+          simp [hstep, lockedProg, hp]
+        rw [e]
+        refine ⟨?_, ?_⟩
+        · intro j hj
+          have hji : j ≠ i := fun c => hj (by simp [hl, c])
+          simp only [upd_other _ _ _ _ hji]
+          exact h1 j (by rw [hl]; simpa using hji.symm)
+        · simp only [hl]
+          exact ⟨acq', ha, Or.inr (Or.inr ⟨by simp [upd_same, hp], by rw [hq]; simp [pairOf]⟩)⟩
+      · have e : hstep lockedProg s i =
+            { s with lock := none, pc := upd s.pc i (s.pc i + 1) } := by
+          simp [hstep, lockedProg, hp]
+        rw [e]
+        refine ⟨?_, ?_⟩
+        · intro j _
+          by_cases hji : j = i
+          · subst hji; right; simp [upd_same, hp]
+          · simp only [upd_other _ _ _ _ hji]
+            exact h1 j (by rw [hl]; simpa using fun c => hji c.symm)
+        · simp only
+          rw [hq, ha]; simp
+    · -- a thread that does not hold the lock: not started (blocked on acquire) or finished
+      rcases h1 i (by rw [hl]; simpa using fun c => hik c.symm) with hp | hp
+      · have e : hstep lockedProg s i = s := by simp [hstep, lockedProg, hp, hl]
+        rw [e]; exact ⟨h1, by rw [hl]; exact ⟨acq', ha, hc⟩⟩
+      · have e : hstep lockedProg s i = s := by simp [hstep, lockedProg_none _ hp]
+        rw [e]; exact ⟨h1, by rw [hl]; exact ⟨acq', ha, hc⟩⟩
+
+theorem hrun_inv_from (sched : List Nat) (s : HS) (h : HInv s) :
+    HInv (sched.foldl (hstep lockedProg) s) := by
+  induction sched generalizing s with
+  | nil => exact h
+  | cons i is ih => exact ih _ (hstep_inv s i h)
+
+theorem hinv_init : HInv {} := ⟨fun _ _ => Or.inl rfl, rfl⟩
+
 end Px.Modes
